@@ -48,6 +48,10 @@ CaseU == T("case", <<>>, <<>>, <<>>, TRUE, All)
 CaseL == T("case", <<>>, <<>>, <<>>, FALSE, Exc(<<fC>>))
 SetV == T("setvalue", <<>>, <<>>, <<115,118>>, FALSE, Inc(<<fA, <<102,77>>, <<102,70>>>>))
 SetVId == T("setvalue", <<>>, <<>>, <<115,118>>, FALSE, Inc(<<nosuch>>))
+\* map_string on values that are not the objects parsed from the rule: under a wildcard modifier (the key is written with
+\* the wildcards), after an earlier item of the chain
+MapSWild == T("mapstr", <<(<<(<<42,121,42>>), <<t_m1>>>>), (<<(<<112,114,101,42>>), <<t_m1, t_m2>>>>)>>, <<>>, <<>>, FALSE, All)     \* "*y*" -> m1 ; "pre*" -> m1, m2
+MapSUpper == T("mapstr", <<(<<(<<88>>), <<t_m1>>>>), (<<(<<65>>), <<t_m2>>>>)>>, <<>>, <<>>, FALSE, All)                  \* "X" -> m1 ; "A" -> m2
 \* results that are falsy in Python: the empty string
 ReplEmpty == T("replace", <<>>, t_x, <<>>, FALSE, All)
 MapSEmpty == T("mapstr", <<(<<t_x, <<(<<>>)>>>>), (<<t_v, <<(<<>>), t_w>>>>)>>, <<>>, <<>>, FALSE, All)
@@ -68,7 +72,7 @@ Lists == {<<Fmap1>>, <<Fmap1n>>, <<FmapKw>>, <<FmapRef>>, <<FmapScoped>>, <<Fpre
           <<Fmap1, T("fmap", <<(<<x1, <<x2>>>>)>>, <<>>, <<>>, FALSE, All)>>, <<Fsuf, T("drop", <<>>, <<>>, <<>>, FALSE, Inc(<<fB \o <<46,115>>>>))>>,
           <<Add1, Fpre>>, <<Fmap1n, Repl>>, <<Repl, MapS>>, <<FmapKw, CaseU>>, <<Nest, Add1>>,
           <<Hashes>>, <<HashesDrop>>, <<Hashes, Fsuf>>, <<Hashes, CaseU>>,
-          <<ReplEmpty>>, <<MapSEmpty>>, <<SetVEmpty>>,
+          <<ReplEmpty>>, <<MapSEmpty>>, <<SetVEmpty>>, <<MapSWild>>, <<CaseU, MapSUpper>>, <<Repl, T("mapstr", <<(<<(<<121,121>>), <<t_m1>>>>)>>, <<>>, <<>>, FALSE, All)>>,
           <<ToNum>>, <<ToNumOne>>, <<ToStr>>, <<ToStrScoped>>, <<ToStr, Repl>>, <<ToNumOne, ToStr>>, <<Fmap1, ToStr>>}
 Identities == {<<ConvId>>, <<HashesId>>, <<FmapId>>, <<FpreMapId>>, <<DropId>>, <<ReplId>>, <<MapSId>>, <<SetVId>>,
                <<[T("nest", <<>>, <<>>, <<>>, FALSE, All) EXCEPT !.sub = <<FmapId, ReplId>>]>>}
